@@ -40,6 +40,21 @@ example : pipeline.entry ⟨.test, id% "pkg.sub.", id% "t", testSignature (id% "
 example : pipeline.entry ⟨.function, id% "pkg.", id% "f", ⟨[.unit], .unit⟩⟩
     = some (id% "pkg.f", some ⟨[.unit], .unit⟩) := rfl
 
+/-- The signature a test carries into the table is the one the gate theorems
+    assume (`RotoV.C04.test_sig`): `Mir::lower` hands `function_like` no
+    parameters and `Type::verdict(Type::unit(), Type::unit())`; a function and
+    a filtermap carry the return type of their declared / inferred signature. -/
+theorem test_signature_as_modelled :
+    Gen.GateTab.testSig = testSignature (id% "Verdict") ∧
+    Gen.GateTab.returnTypeSources =
+      [(id% "filter_map", id% "function_signature(ident).return_type"),
+       (id% "function", id% "declaration.signature.return_type"),
+       (id% "test", id% "verdict(unit,unit)")] :=
+  ⟨rfl, by decide⟩
+
+example : pipeline.entry ⟨.test, id% "pkg.", id% "t", Gen.GateTab.testSig⟩
+    = some (id% "pkg.test#t", some (testSignature (id% "Verdict"))) := rfl
+
 /-- every variant of `ast::Declaration` is one the model knows -/
 theorem decl_kinds_covered :
     Gen.GateTab.declVariants = [DeclKind.filterMap, .const, .record, .enum, .function, .test, .import].map DeclKind.variant := by
